@@ -19,6 +19,7 @@ import Drand.Beacon.Cache
 import Drand.Chain.Stack
 import Gen.Consts
 import Gen.BeaconNode
+import Gen.CacheRules
 
 namespace Drand.Beacon
 open Drand Drand.Chain Drand.Store
@@ -127,7 +128,7 @@ structure Node where
 
 def Node.init (chained : Bool) (sigLen : Nat) (addr : String) (chainKey : Nat) (g : GroupView) (seed : Bytes) : Node :=
   { chained, sigLen, addr, chainKey, group := g, nextRound := 0, stack := Stack.init chained seed,
-    newPartials := [], storedQ := [], aggLast := none, cache := Cache.empty sigLen, waiters := [], streams := [],
+    newPartials := [], storedQ := [], aggLast := none, cache := Cache.empty sigLen Gen.replaceSameIndex, waiters := [], streams := [],
     puts := [], served := [], syncReqs := [], seen := [g] }
 
 /-- `h.chain.Last` / `store.Last` -/
@@ -390,6 +391,13 @@ def tryNodePacketSteps : List Gen.BeaconNode.Step := [
 def callbackPutSteps : List Gen.BeaconNode.Step := [
   .guard "err:=c.Store.Put(ctx,b);err!=nil" [.exit "return err"],
   .branch "b.Round!=0" [.call "c.RLock()", .call "defer c.RUnlock()", .loop "range c.callbacks" [.bind "j,ok:=c.newJob[id]", .guard "!ok" [.exit "continue"], .call "j<-cbPair{cb:cb,b:b}"]] [],
+  .exit "return nil"]
+
+/-- the repaired store (reports/cb_fix_1.diff): the same two stages — base `Put` first, its error returns before any
+dispatch; then every registered callback is handed the beacon — with a dispatch that never waits for a stream consumer -/
+def callbackPutStepsRepaired : List Gen.BeaconNode.Step := [
+  .guard "err:=c.Store.Put(ctx,b);err!=nil" [.exit "return err"],
+  .branch "b.Round!=0" [.call "c.Lock()", .call "defer c.Unlock()", .loop "range c.callbacks" [.bind "j,ok:=c.newJob[id]", .guard "!ok" [.exit "continue"], .bind "job:=cbPair{cb:cb,b:b}", .guard "!c.workers[id].stream" [.call "j<-job", .exit "continue"], .select [.selectCase "j<-job" [], .selectCase "default" [.call "c.stopWorker(id,true)", .call "delete(c.callbacks,id)"]]]] [],
   .exit "return nil"]
 
 /-! ### memdb start-up: `storeCurrentFromPeerNetwork` -/
